@@ -59,6 +59,13 @@ template <class PT> bool check_query(vf::Ctx& c, const KdTree<PT>& tree, const P
     }
     if (!good) { c.violation("KdTree.findNearestNeighbors", params(k), vf::JO().str("why", why).vec("indexes", idx).vec("distances", d).vec("k_smallest", std::vector<S>(sorted.begin(), sorted.begin() + k)).done()); ok = false; }
   }
+  // k-nearest, closest-point, k-nearest again with the SAME k (for a few k)
+  for (size_t k : {(size_t)2, kmax / 2 + 1, kmax}) if (ok && k >= 1 && k <= kmax) {
+    std::vector<size_t> i1(k, (size_t)-1), i2(k, (size_t)-1); std::vector<S> d1(k, (S)-1), d2(k, (S)-1); size_t si = 0; S sd = 0;
+    tree.findNearestNeighbors(q, k, i1, d1); tree.findNearestNeighbor(q, si, sd); tree.findNearestNeighbors(q, k, i2, d2);
+    c.eval();
+    if (i1 != ascIdx[k] || d1 != ascD[k] || i2 != ascIdx[k] || d2 != ascD[k]) { c.violation("KdTree.findNearestNeighbors.dependsOnHistory", params(k), vf::JO().str("history", "findNearestNeighbors(k); findNearestNeighbor; findNearestNeighbors(k)").vec("indexes", i2).vec("distances", d2).vec("indexes_first_pass", ascIdx[k]).done()); ok = false; }
+  }
   // the same queries in descending order of k, then the single query again: a query must not depend on the queries before it
   for (size_t k = kmax; k >= 1 && ok; --k) {
     std::vector<size_t> idx(k, (size_t)-1); std::vector<S> d(k, (S)-1);
